@@ -324,3 +324,4 @@ func leU64(b []byte) uint64 {
 	}
 	return x
 }
+
